@@ -26,8 +26,8 @@ SPEC = dict(
     exhaustive={Q: False, T: False},
     jobs=[
         job('args-exh', 'h_process', 'args-exh', cases=-1, scale={Q: 4, T: 5}, procs=16, probes=['Process.Arguments.read']),
-        job('args-rand', 'h_process', 'args-rand', cases={Q: 8000, T: 500000}, procs=16),
-        job('proc', 'h_process', 'proc', cases={Q: 1600, T: 40000}, procs=16),
+        job('args-rand', 'h_process', 'args-rand', cases={Q: 32000, T: 500000}, procs=16),
+        job('proc', 'h_process', 'proc', cases={Q: 3200, T: 40000}, procs=16),
         job('proc-bs', 'h_process', 'proc-bs', cases={Q: 48, T: 600}, procs=16),
     ],
     floors={Q: dict(vectors=1000000, items_compared=4000000, processes=1600, argv_strings_compared=10000, env_strings_compared=20000, stream_bytes_compared=30000000, payloads_over_pipe_capacity=200,
